@@ -701,6 +701,7 @@ func emitHandshakeResults(run *Run, res []hsResult) {
 		"sds":  {"sds_case", "sds_mismatches sds_update_always_installs"},
 		"file": {"file_case", "file_mismatches tls_ca_pool_cached"},
 		"res":  {"res_case", "res_mismatches tls_resume_verifies"},
+		"lis":  {"lis_case", "lis_mismatches tls_update_ctxs_before_manager tls_update_insp_before_manager"},
 	}
 	for _, h := range res {
 		if h.Kind == "skip" { // recorded in the distribution only (plus an additional finder verdict, if any)
@@ -724,7 +725,7 @@ func emitHandshakeResults(run *Run, res []hsResult) {
 			run.Sum.Samples = append(run.Sum.Samples, h.Rep)
 		}
 	}
-	for _, k := range []string{"sel", "auth", "up", "insp", "upd", "sds", "file", "res"} {
+	for _, k := range []string{"sel", "auth", "up", "insp", "upd", "sds", "file", "res", "lis"} {
 		if shards[k] != nil {
 			shards[k].Close()
 		}
@@ -1223,6 +1224,9 @@ func runHandshakes(run *Run, right, other *authority, ls []*listenerUnderTest, v
 	// ---- B7: file-backed material over histories of configuration applications ----
 	out = append(out, runFileHistories(run, right, other, ver, maxVer)...)
 	out = append(out, runResumeHistories(run, right, other, ver, maxVer)...)
+	if ver == "tls12" { // the update path does not depend on the TLS version
+		out = append(out, runListenerUpdateHistories(run, right, ver, maxVer)...)
+	}
 	return out
 }
 
